@@ -478,6 +478,18 @@ impl WorkStealingExecutor {
             return Some(task);
         }
 
+        // 1b. Then the tasks balance() parked in this worker's own steal queue. Other
+        // workers may take them first, but nobody else is obliged to: without this a
+        // single worker (or one whose peers stay busy) never runs them.
+        if let Some(task) = my_queue
+            .steal_queue
+            .lock()
+            .unwrap_or_else(|e| e.into_inner())
+            .pop_front()
+        {
+            return Some(task);
+        }
+
         // 2. Try global queue
         if let Ok(mut queue) = global_queue.try_lock() {
             if let Some(task) = queue.pop_front() {
